@@ -25,6 +25,8 @@ def run(ctx):
             sc['dur'] = 1.0 if sc['concurrent'] else 0
         sc['conc'] = 2 if i % 4 == 1 else 1          # values whose hashes collide
         sc['retnone'] = i % 5 == 2                    # the function legitimately returns None
+        if mode == 'ops' and not lru:                 # entries of the caller's mapping expire at moments of its choosing
+            sc['expire'] = ('never', 'contains', 'getitem')[i % 3]
         scs.append(sc)
     if ctx.tier == 'thorough' and len(scs) > 150000:
         keep = [sc for sc in scs if sc['mode'] == 'ops']
@@ -59,6 +61,21 @@ def run(ctx):
         for off in range(0, len(part), 8000):
             ctx.run_and_validate(DRIVER, COMP, 'KeysTrace', part[off:off + 8000], fam,
                                  nontrivial=lambda sc, r: True, known_match=known_match)
+    # entries of the caller's mapping that expire between two operations of the wrapper while several loops
+    # contend for the key: every call still ends with the value computed for its key (judged by the cache
+    # contract's own-outcome clause: an exception that no invocation of this call raised is not such a value)
+    from harness.components import cachecomp
+    scs = cachecomp.fam_contention(rng, 500 if ctx.tier == 'quick' else 8000)
+    for sc in scs:
+        sc['mapping'] = 'expc'
+    out = ctx.run_and_validate(cachecomp.DRIVER, cachecomp.COMP, cachecomp.TRACE, scs, 'expiring_race', props=[],
+                               nontrivial=lambda sc, r: True)
+    for sc, r, v in out:
+        hit = v.get('C06')
+        if hit is not None:
+            ctx.cov['families']['expiring_race']['violating'] += 1
+            ctx.violation('C14', 'C14_ValueOfKey', hit[1], sc, r, 'expiring_race', cachecomp.DRIVER, known_match,
+                          cachecomp.COMP, cachecomp.TRACE, slot='C06')
     return ctx.finish(
         rule='TLC enumerates from KeysGen.tla all pairs of call signatures (positional tuples of length 0..2 over two '
              'equality classes, keyword lists of 0..2 distinct names in every order) and all call/evict sequences of '
